@@ -960,9 +960,31 @@ def string_spread_sites(p, f):
         elif isinstance(s, ast.Call) and isinstance(s.func, ast.Attribute) and s.func.attr == 'extend' and \
                 isinstance(s.func.value, ast.Name) and len(s.args) == 1:
             tgt, val = s.func.value.id, s.args[0]
-        if tgt in lists and isinstance(val, ast.Name) and val.id in scalars:
+        if tgt in lists and isinstance(val, ast.Name) and val.id in scalars and _stringish(p, f, val.id):
             out.append((s, tgt, val.id))
     return out
+
+
+_STR_METHODS = {'startswith', 'endswith', 'strip', 'lstrip', 'rstrip', 'lower', 'upper', 'split', 'replace', 'format', 'encode',
+                'decode', 'join', 'splitlines', 'isdigit', 'find'}
+
+
+def _stringish(p, f, name):
+    """Evidence in f that `name` holds a string (so that extending a list by it spreads characters): its spelling, a
+    string method called on it, %-formatting with it, or a substring test `name in <text>`."""
+    import re as _re
+    if _re.search(r'(str|string|text|name|path|line|word|char|prefix|suffix|pattern|rex)s?$', name):
+        return True
+    for x in p.own_nodes(f):
+        if isinstance(x, ast.Call) and isinstance(x.func, ast.Attribute) and isinstance(x.func.value, ast.Name) and \
+                x.func.value.id == name and x.func.attr in _STR_METHODS:
+            return True
+        if isinstance(x, ast.BinOp) and isinstance(x.op, ast.Mod) and any(isinstance(y, ast.Name) and y.id == name for y in ast.walk(x.right)):
+            return True
+        if isinstance(x, ast.Call) and norm(x.func) in ('re.escape', 're.compile', 'str.join') and any(
+                isinstance(a, ast.Name) and a.id == name for a in x.args):
+            return True
+    return False
 
 
 def paren_string_constants(mod):
@@ -1000,6 +1022,9 @@ def f(ext, items):
     out = []
     for (which, s) in items:
         out += s
+        out.append(s.strip())
+    for chunk in items:
+        out += chunk
     extra = [x for x in items]
     out += extra
     d = {}
